@@ -41,8 +41,8 @@ type lockRig struct {
 	during   *ref.Request
 	duringAt int
 	afterEI  bool // previous Step executed EI
-	parked  bool // previous Step executed HALT (CPU is parked on it)
-	known   map[string]bool
+	parked   bool // previous Step executed HALT (CPU is parked on it)
+	known    map[string]bool
 	// strictEI: do not allow the one-instruction EI shadow (used by nothing yet)
 }
 
